@@ -6,6 +6,8 @@
 (* a sequence of these atomic steps (OneTransition, ExactlyOneOk, NoHalfInit).                *)
 EXTENDS Integers, Sequences, FiniteSets, TLC, Json
 TraceLog == ndJsonDeserialize("trace.ndjson")
+\* key files that decrypt and load; a ":pre..." suffix only preloads the list of published public keys
+GoodFiles == {"ok", "ed", "ed:preed", "ed:prersa", "ed:preforeign", "ed:premix", "ok:prersa", "ok:preforeign"}
 VARIABLES sealed, fileok, l, viol
 vars == <<sealed, fileok>>
 Failed(gs) == {g[1] : g \in {x \in gs : ~x[2]}}
@@ -37,7 +39,7 @@ TNext == /\ l <= Len(TraceLog)
                        \cup (IF e.out.panic THEN {"G_C10_NoPanic"} ELSE {})
             IN /\ viol' = IF bad = {} THEN viol ELSE viol \cup {<<l, e.ev, bad>>}
                /\ sealed' = IF e.ev = "Reset" THEN TRUE ELSE IF e.ev = "Inject" THEN e.out.sealedAfter ELSE sealed
-               /\ fileok' = IF e.ev = "Reset" THEN e.args.file \in {"ok", "ed"} ELSE fileok
+               /\ fileok' = IF e.ev = "Reset" THEN e.args.file \in GoodFiles ELSE fileok
          /\ l' = l + 1
 TSpec == TInit /\ [][TNext]_<<vars, l, viol>>
 Report == (l = Len(TraceLog) + 1) => PrintT(<<"VIOL", ToJson([n |-> l - 1, viol |-> viol])>>)
